@@ -19,6 +19,10 @@ PROFILES_QUICK = [
     {"block_size": 4 << 20, "full": False, "sel": 3, "table_offset": 2048},  # 8192 sectors per block: 2 bitmap sectors
     {"block_size": 4096, "full": False, "sel": 3, "data_gap": 0xC0000000 * 512},   # table entries (sector numbers) with the top bit set
     {"block_size": 2 << 20, "full": False, "sel": 4, "data_gap": 0xFFF00000 * 512, "when": lambda img: img["kind"] == "dynamic"},
+    # the table behind the blocks it describes; the dynamic header and table beyond 4 GiB with the blocks in front of them
+    {"block_size": 4096, "full": True, "sel": 2, "layout": "bat-last", "when": lambda img: img["kind"] == "dynamic"},
+    {"block_size": 2 << 20, "full": False, "sel": 3, "layout": "hdr-far", "table_offset": 1536 + 4096, "when": lambda img: img["kind"] == "dynamic"},
+    {"block_size": 4096, "full": False, "sel": 3, "layout": "hdr-far", "when": lambda img: img["kind"] == "dynamic"},
 ]
 PROFILES_THOROUGH = PROFILES_QUICK + [
     {"block_size": 512 << 10, "full": False},
@@ -48,7 +52,8 @@ def build(img, prof, P=None, size_bytes=None):
     if prof.get("data_gap"):
         ds = (to + 4 * img["n"] + 511) // 512 * 512 + prof["data_gap"]
     vf, info = enc_vhd.build(img, block_size=bs, table_offset=to, data_start=ds, P=(img["n"] + 1 if P is None else P),
-                             size_bytes=size_bytes, original_size=prof.get("original_size"), footer_kw=prof.get("footer"), file_id=prof.get("fid", 0))
+                             size_bytes=size_bytes, original_size=prof.get("original_size"), footer_kw=prof.get("footer"), file_id=prof.get("fid", 0),
+                             layout=prof.get("layout", "std"))
     return disk.Built(open=lambda: _open(vf), cell=info["cell"], size=info["size"], bases={0: info["base"]}, files=[vf], fids={0: prof.get("fid", 0)},
                       note={k: v for k, v in prof.items() if k != "when"}, cb=info["cb"], stride=info["stride"])
 
@@ -68,7 +73,7 @@ def make_trace(tid, rng, nops=30, **opt):
     tail = rng.choice([0, 0, 512, bs // 2, bs - 512, 3 * 512])
     size_b = n * bs - tail
     img = {"kind": kind, "n": n, "cb": 1, "bat": {i: bat[i] for i in range(n)}, "size": n, "foot511": rng.random() < 0.25}
-    prof = {"block_size": bs, "table_offset": rng.choice([1536, 2048, 4096]), "original_size": rng.choice([None, size_b + bs, 0]),
+    prof = {"block_size": bs, "table_offset": rng.choice([1536, 2048, 4096]), "layout": rng.choice(["std", "std", "bat-last", "hdr-far"]), "original_size": rng.choice([None, size_b + bs, 0]),
             # footer fields that do not influence the mapping
             "fid": rng.randrange(0, 0x90),   # identity of this image
             "footer": {"features": rng.choice([2, 2, 3]), "uid": bytes(rng.randrange(256) for _ in range(16)), "timestamp": rng.getrandbits(32),
@@ -81,6 +86,11 @@ def make_trace(tid, rng, nops=30, **opt):
                       sectors_fn=s.disk.read_sectors, ssize=512)
     return {"tid": tid, "fmt": "vhd", "img": {"kind": kind, "n": n, "cb": 1, "bat": bat, "size": n, "foot511": img["foot511"]},
             "sizeB": size_b, "sector": 512, "geo": b.geo(), "events": rec.events}
+
+
+def trace_for(tid, r, thorough):
+    """The history behind trace `tid` (run and --replay build the same one)."""
+    return make_trace(tid, r, 40 if thorough else 25, many=diskprop.many_of(tid))
 
 
 def fixed_container_content(ctx, rng):
@@ -131,7 +141,7 @@ def run(ctx):
     diskprop.replay_states(ctx, "vhd", sts, PROFILES_THOROUGH if thorough else PROFILES_QUICK, build,
                            attrs_of=_attrs, cap=80 if thorough else 48, sectors_api=_sectors)
     fixed_container_content(ctx, random.Random(ctx.seed + 404))
-    diskprop.traces(ctx, "vhd", lambda tid, r: make_trace(tid, r, 40 if thorough else 25, many=("mid" if tid % 8 == 0 else None)), 400 if thorough else 64,
+    diskprop.traces(ctx, "vhd", lambda tid, r: trace_for(tid, r, thorough), 400 if thorough else 64,
                     "TraceDisk", "TraceDisk.cfg", lambda t: {"format": "vhd", "block_size": t["geo"]["cellB"], "kind": t["img"]["kind"]})
 
 
@@ -144,7 +154,7 @@ def replay(ctx, body):
         return not r.violated
     if d.get("kind") in ("trace", "trace-gen"):
         tid = d.get("tid") or d["trace"]["tid"]
-        t = make_trace(tid, random.Random(body["seed"] * 9176 + tid), 40 if body.get("tier") == "thorough" else 25)
+        t = trace_for(tid, random.Random(body["seed"] * 9176 + tid), body.get("tier") == "thorough")
         v, _ = tracecheck.validate("TraceDisk", "TraceDisk.cfg", [t])
         print(v)
         return v[tid][0] == "accept"
